@@ -129,7 +129,8 @@ class OdRun(object):
                 return RAISES("KeyError")
             return RET(m.pop(L(op[1])))
         if n == "popd":
-            return RET(m.pop(L(op[1]), "D"))
+            # the default may be the very object the key holds (pop(k, None) on a key holding None)
+            return RET(m.pop(L(op[1]), m.get(L(op[1]), "D") if op[2:] == ["@same"] else "D"))
         if n == "popitem":
             if not m:
                 return RAISES("KeyError")
@@ -228,7 +229,7 @@ class OdRun(object):
         if n == "pop":
             return d.pop(op[1])
         if n == "popd":
-            return d.pop(op[1], "D")
+            return d.pop(op[1], d.get(op[1], "D") if op[2:] == ["@same"] else "D")
         if n == "popitem":
             return d.popitem()
         if n == "setdefault":
@@ -365,6 +366,8 @@ class OdSpec(object):
                         "deepcopy", "copycopy", "sift", "reorder", "eq", "fromkeys", "ctor", "ior"])
         if n in ("set", "setdefault", "append"):
             return [n, k, v]
+        if n == "popd" and v % 2 == 0:
+            return [n, k, "@same"]       # (decided from the value drawn above: the other operations stay what they were)
         if n in ("del", "get", "getd", "in", "pop", "popd"):
             return [n, k]
         if n in ("popitem", "clear", "copy", "deepcopy", "copycopy"):
@@ -392,7 +395,7 @@ class OdSpec(object):
             a, b = "a", "b"
         else:
             a, b = "a", "A"
-        return [["set", a, 1], ["set", b, 2], ["set", "c", 3], ["del", a], ["pop", b], ["popd", a], ["popitem"],
+        return [["set", a, 1], ["set", b, 2], ["set", "c", 3], ["del", a], ["pop", b], ["popd", a], ["popd", b, "@same"], ["popitem"],
                 ["setdefault", b, 4], ["insert", 0, b, 5], ["insert", 1, "c", 6], ["append", a, 7],
                 ["create", "kw", [[a, 8], ["c", 9]]], ["update", "pairs", [["c", 10], [b, 11]]],
                 ["reorder", [[a, 12]]], ["reorder", "self"], ["sift", [b]], ["get", b], ["copy"]]
@@ -406,7 +409,7 @@ class OdSpec(object):
             v[0] += 1
             return v[0]
         for k in ks:
-            al += [["set", k, nv()], ["del", k], ["get", k], ["getd", k], ["in", k], ["pop", k], ["popd", k],
+            al += [["set", k, nv()], ["del", k], ["get", k], ["getd", k], ["in", k], ["pop", k], ["popd", k], ["popd", k, "@same"],
                    ["setdefault", k, nv()], ["append", k, nv()], ["insert", 0, k, nv()], ["insert", 5, k, nv()],
                    ["insert", -1, k, nv()], ["sift", [k]], ["reorder", [[k, nv()]]], ["fromkeys", [k, "c"], nv()]]
         two = [[ks[0], nv()], [ks[-1], nv()], ["c", nv()]]
